@@ -45,4 +45,6 @@ def run(ctx):
 
 
 # sensitivity pack (thorough tier): each seeded edit must be reported by the named rule instance
-MUTANTS = [{'name': 'decimal-scale-unchecked-again', 'file': 'src/decimal.rs', 'old': '        value: 10u128\n          .checked_pow(u32::from(scale))\n          .and_then(|multiplier| integer.checked_mul(multiplier))\n          .and_then(|integer| integer.checked_add(decimal))\n          .context("decimal out of range")?,', 'new': '        value: integer * 10u128.pow(u32::from(scale)) + decimal,', 'expect': ('R34.1', 'Decimal as std::str::FromStr', 'arith:')}]
+MUTANTS = [
+  {'name': 'seeded-C34-a', 'patch': 'C34-a/patch.diff', 'expect': ('R34.2', 'Decimal::to_integer', '')},
+{'name': 'decimal-scale-unchecked-again', 'file': 'src/decimal.rs', 'old': '        value: 10u128\n          .checked_pow(u32::from(scale))\n          .and_then(|multiplier| integer.checked_mul(multiplier))\n          .and_then(|integer| integer.checked_add(decimal))\n          .context("decimal out of range")?,', 'new': '        value: integer * 10u128.pow(u32::from(scale)) + decimal,', 'expect': ('R34.1', 'Decimal as std::str::FromStr', 'arith:')}]
